@@ -868,6 +868,58 @@ func main() {
 	w("def decryptOrder : List String := %s", ql(order))
 	w("")
 
+	// ---- a failed unwrap is refused after the MAC check ----
+	{
+		failedDef, refuseCond, refuseErr := "", "", ""
+		body := p.fn("Decrypt").Body.List
+		for i, st := range body {
+			as, ok := st.(*ast.AssignStmt)
+			if !ok || len(as.Lhs) < 1 || len(as.Rhs) != 1 {
+				continue
+			}
+			if as.Tok == token.DEFINE && show(as.Lhs[0]) == "unwrapFailed" {
+				failedDef = show(as.Rhs[0])
+			}
+			if c, ok := as.Rhs[0].(*ast.CallExpr); ok && show(c.Fun) == "fk.VerifyHeaderSignature" && i+1 < len(body) {
+				if is, ok := body[i+1].(*ast.IfStmt); ok && len(is.Body.List) == 1 && is.Else == nil {
+					if a2, ok := is.Body.List[0].(*ast.AssignStmt); ok && show(a2.Lhs[0]) == "err" {
+						refuseCond, refuseErr = show(is.Cond), show(a2.Rhs[0])
+					}
+				}
+			}
+		}
+		if failedDef == "" || refuseCond == "" {
+			die("Decrypt: `unwrapFailed := …` and the refusal `if err == nil && unwrapFailed { err = … }` right after VerifyHeaderSignature not found (a failed unwrap would be accepted under the substituted all-zero key)")
+		}
+		w("/-- scheme.go: Decrypt: definition of unwrapFailed; the statement right after `err = fk.VerifyHeaderSignature(…)`: `if <cond> { err = <sentinel> }` -/")
+		w("def badUnwrapRefusal : List String := %s", ql([]string{failedDef, refuseCond, refuseErr}))
+		w("")
+	}
+
+	// ---- Encrypt refuses an empty wrapped key (what Manifest.Validate would reject in Decrypt) ----
+	{
+		found := ""
+		ast.Inspect(p.fn("Encrypt"), func(n ast.Node) bool {
+			if is, ok := n.(*ast.IfStmt); ok && show(is.Cond) == "len(wrappedFileKey)==0" && len(is.Body.List) >= 1 {
+				if _, ok := is.Body.List[len(is.Body.List)-1].(*ast.ReturnStmt); ok {
+					found = show(is.Cond)
+				}
+			}
+			return true
+		})
+		validateEmpty := false
+		ast.Inspect(p.fn("Manifest.Validate"), func(n ast.Node) bool {
+			if is, ok := n.(*ast.IfStmt); ok && show(is.Cond) == "len(m.WFK)==0" {
+				validateEmpty = true
+			}
+			return true
+		})
+		w("/-- scheme.go: Encrypt returns an error when `len(wrappedFileKey) == 0`; manifest.go: Validate rejects `len(m.WFK) == 0` -/")
+		w("def encryptRefusesEmptyWrappedKey : Bool := %v", found != "")
+		w("def validateRejectsEmptyWrappedKey : Bool := %v", validateEmpty)
+		w("")
+	}
+
 	// ---- BufPool discipline: per function, number of Get and Put call sites, and whether the only Put is a
 	// deferred call in the statement right after the Get (so that every Get is matched by exactly one Put) ----
 	var disc []string
